@@ -99,7 +99,7 @@ def c08_induced(kw):
     elif variant == "retain_taxa_with_labels":
         tree.retain_taxa_with_labels(keep, update_bipartitions=upd, suppress_unifurcations=sup)
         res = tree
-    elif variant == "filter_leaf_nodes" and not kw["f_rec"]:
+    elif variant == "filter_leaf_nodes" and lens_mode == 0 and not sup and not upd and not kw["f_rec"]:
         # a single pass (recursive=False): internal nodes may be left as leaves, so only the report of the
         # removed nodes, the survival of every accepted leaf and well-formedness are claimed
         returned = tree.filter_leaf_nodes(lambda nd: nd.taxon is not None and nd.taxon.label in keepset,
